@@ -1,17 +1,20 @@
 //go:build verif
 
 // Contracts for package strbytesconv. Both functions reinterpret memory through unsafe.Pointer,
-// which is outside the verified subset: their contracts are TRUSTED (assumed, body not checked).
+// which is outside the verified subset: their contracts are TRUSTED (assumed, body not checked),
+// including the frame: the only stores are to a local header value.
 package strbytesconv
 
 //@ func StringToBytes
 //@   trusted
-//@   props C13 C01
+//@   props C13 C01 C04
 //@   ensures view(bytes) == str
+//@   assigns nothing
 //@ end
 
 //@ func BytesToString
 //@   trusted
-//@   props C13 C01
+//@   props C13 C01 C04
 //@   ensures result == view(bytes)
+//@   assigns nothing
 //@ end
